@@ -10,6 +10,12 @@ Line-protocol driver for the C03 models (model files only).
       of `module_prefix` and `lookup_target`); the c-th `R` is what the c-th `reprocess_nodes` call returned.
       A location is `T<n>` (trigger) or `G<t>` (target); `-` is an empty list.
       → `outcome=<done|maxiter> remaining=<m,..> seq=<m>:<u,..>;… protos=<t,..>/… err=<notes>`
+  U prev=<t,..> changed=<m,..> | M m=<m> trig=<n,..> | I pm=<i> c=<c> deps=… mod=… look=… | R m=<m> fired=<n,..> | E pm=<i> c=<c> targets=<t,..> | …
+      replays a whole `FineGrainedBuildManager.update` call on the model's `updateG`: the i-th `M` is what the
+      i-th `update_module` did up to `calculate_active_triggers` (module, active triggers); the state of the
+      replay is (number of `update_module` calls, number of `reprocess_nodes` calls) and the `I`/`E` tables are
+      what the build manager / `errors.targets()` looked like in that state
+      → `outcome=<done|maxiter> modules=<m,..> seq=<m>:<u,..>;… prev=<t,..> err=<notes>`
   W <path events>   see Model/FsWatch.lean:  W d=<p>:<mtime>:<size>:<hash>;… f=<p>:<mtime>:<size>:<hash>;… w=<p,..>
       → `changed=<p,..> data=<p>:<mtime>:<size>:<hash>;…`
   M s=<m>:<p>;… p=<m>:<p>;… c=<p,..>     `Server._find_changed(sources, changed_paths)` with previous_sources = p
@@ -150,6 +156,78 @@ def runW (line : String) : String :=
   let ds := ";".intercalate (watched.filterMap fun p => (r.2 p).map fun d => s!"{p}:{d.mtime}:{d.size}:{d.hash}")
   s!"changed={showNats r.1} data={if ds.isEmpty then "-" else ds}"
 
+/-! replay of a whole `FineGrainedBuildManager.update` call -/
+structure UReplay where
+  pm : Nat := 0
+  c : Nat := 0
+  log : List (Mod × List Target) := []
+  pmLog : List Mod := []
+  err : List String := []
+
+structure UIter where
+  pm : Nat
+  tab : IterTab
+
+structure UTables where
+  iters : List UIter
+  reproc : List ReprocE
+  pms : List (Mod × List Name)                 -- i-th update_module: module, active triggers
+  errs : List (Nat × Nat × List Target)        -- (pm, c) ↦ errors.targets()
+
+def UTables.tabs (T : UTables) (s : UReplay) : List IterTab :=
+  (T.iters.filter (fun e => e.pm == s.pm && e.tab.c == s.c)).map (·.tab)
+
+def ureplaySys (T : UTables) : USys UReplay where
+  deps s := (T.tabs s).flatMap (·.deps)
+  modOf s t := (((T.tabs s).flatMap (·.modOf)).find? (·.1 == t)).map (·.2.1)
+  loaded s m := ((T.tabs s).flatMap (·.modOf)).any (fun e => e.2.1 == m && e.2.2)
+  lookup s t := match ((T.tabs s).flatMap (·.look)).find? (·.target == t) with
+    | some e => e.units.map (·.1)
+    | none => []
+  isProto s t := match ((T.tabs s).flatMap (·.look)).find? (·.target == t) with
+    | some e => e.proto
+    | none => false
+  line s u := ((((T.tabs s).flatMap (·.look)).flatMap (·.units)).find? (·.1 == u)).map (·.2) |>.getD 0
+  invalidate s _ := s
+  reprocess s m us :=
+    match T.reproc[s.c]? with
+    | some e =>
+      let err := if e.m == m then s.err else s.err ++ [s!"reprocess#{s.c}:model-module={m},real-module={e.m}"]
+      ({ s with c := s.c + 1, log := s.log ++ [(m, us)], err := err }, e.fired)
+    | none => ({ s with c := s.c + 1, log := s.log ++ [(m, us)], err := s.err ++ [s!"reprocess#{s.c}:not-in-real-trace"] }, [])
+  processModule s m :=
+    match T.pms[s.pm]? with
+    | some e =>
+      let err := if e.1 == m then s.err else s.err ++ [s!"update_module#{s.pm}:model-module={m},real-module={e.1}"]
+      ({ s with pm := s.pm + 1, pmLog := s.pmLog ++ [m], err := err }, e.2)
+    | none => ({ s with pm := s.pm + 1, pmLog := s.pmLog ++ [m], err := s.err ++ [s!"update_module#{s.pm}:not-in-real-trace"] }, [])
+  errTargets s := match T.errs.find? (fun e => e.1 == s.pm && e.2.1 == s.c) with
+    | some e => e.2.2
+    | none => []
+
+def runU (line : String) : String :=
+  let secs := (line.splitOn " | ").map fun s => (s.trimAscii.toString.splitOn " ").filter (!·.isEmpty)
+  match secs with
+  | [] => "bad-op"
+  | hd :: rest =>
+    let iters := (rest.filter (·.head? == some "I")).map fun p => ({ pm := (field p "pm").toNat?.getD 0, tab := parseIter p } : UIter)
+    let reproc := (rest.filter (·.head? == some "R")).map fun p =>
+      ({ m := (field p "m").toNat?.getD 0, fired := natList (field p "fired") } : ReprocE)
+    let pms := (rest.filter (·.head? == some "M")).map fun p => ((field p "m").toNat?.getD 0, natList (field p "trig"))
+    let errs := (rest.filter (·.head? == some "E")).map fun p =>
+      ((field p "pm").toNat?.getD 0, (field p "c").toNat?.getD 0, natList (field p "targets"))
+    let T : UTables := { iters := iters, reproc := reproc, pms := pms, errs := errs }
+    let out := updateG (ureplaySys T) { st := {}, prevErr := natList (field hd "prev") } (natList (field hd "changed"))
+    match out with
+    | none => "outcome=maxiter"
+    | some u =>
+      let s := u.st
+      let seq := ";".intercalate (s.log.map fun e => s!"{e.1}:{showNats e.2}")
+      let unused := (if s.c < reproc.length then [s!"real-trace-has-{reproc.length}-reprocess-calls,model-made-{s.c}"] else []) ++
+                    (if s.pm < pms.length then [s!"real-trace-has-{pms.length}-update_module-calls,model-made-{s.pm}"] else [])
+      let err := s.err ++ unused
+      s!"outcome=done modules={showNats s.pmLog} seq={if seq.isEmpty then "-" else seq} prev={showNats (sortNat (dedup u.prevErr))} err={if err.isEmpty then "-" else " ".intercalate err}"
+
 def parsePairs (s : String) : List (Nat × Nat) :=
   (splitNE s ";").filterMap fun e =>
     match (e.splitOn ":").map (·.toNat?) with
@@ -169,6 +247,7 @@ def step (line : String) : String :=
   if line.startsWith "P " then runP line
   else if line.startsWith "W " then runW line
   else if line.startsWith "M " then runM line
+  else if line.startsWith "U " then runU line
   else "bad-op"
 
 partial def loop (h : IO.FS.Stream) : IO Unit := do
